@@ -261,16 +261,26 @@ type Bytes struct {
 	Cells map[int]Vec // offset -> 8-bit vector (writes); reads of unwritten cells yield inputs
 	Len   int         // for literals, else -1
 	Input bool
+	Shift int // a view b[lo:...] shares Cells with its parent and addresses them at +lo
 }
 
 func (b *Bytes) Get(off int) Vec {
-	if v, ok := b.Cells[off]; ok {
+	if v, ok := b.Cells[off+b.Shift]; ok {
 		return v
 	}
 	if b.Input {
-		return Input(fmt.Sprintf("%s[%d]", b.Name, off), 8)
+		return Input(fmt.Sprintf("%s[%d]", b.Name, off+b.Shift), 8)
 	}
 	return Zero(8)
+}
+
+// Set writes one byte cell.
+func (b *Bytes) Set(off int, v Vec) { b.Cells[off+b.Shift] = v }
+
+// Cell returns a written cell (view-relative offset).
+func (b *Bytes) Cell(off int) (Vec, bool) {
+	v, ok := b.Cells[off+b.Shift]
+	return v, ok
 }
 
 // Value is an abstract value: an integer vector or a byte slice.
@@ -329,6 +339,18 @@ func typeWidth(t types.Type) (int, bool, bool) {
 		return 64, true, true
 	}
 	return 0, false, false
+}
+
+func isByteArray(t types.Type) bool {
+	if t == nil {
+		return false
+	}
+	a, ok := t.Underlying().(*types.Array)
+	if !ok {
+		return false
+	}
+	b, ok := a.Elem().Underlying().(*types.Basic)
+	return ok && b.Kind() == types.Uint8
 }
 
 func isByteSlice(t types.Type) bool {
@@ -396,11 +418,27 @@ func (ip *Interp) stmt(fr *frame, s ast.Stmt) {
 			ip.fail(fr, v, "multi-value assignment")
 			return
 		}
+		if (v.Tok == token.DEFINE || v.Tok == token.ASSIGN) && len(v.Lhs) > 1 {
+			vals := make([]*Value, len(v.Lhs))
+			for i := range v.Lhs {
+				vals[i] = ip.expr(fr, v.Rhs[i], fr.info.TypeOf(v.Lhs[i]))
+				if vals[i] == nil {
+					return
+				}
+			}
+			for i := range v.Lhs {
+				ip.store(fr, v.Lhs[i], vals[i])
+			}
+			return
+		}
 		for i := range v.Lhs {
 			var val *Value
 			switch v.Tok {
 			case token.DEFINE, token.ASSIGN:
 				val = ip.expr(fr, v.Rhs[i], fr.info.TypeOf(v.Lhs[i]))
+			case token.SUB_ASSIGN, token.SHL_ASSIGN, token.SHR_ASSIGN, token.MUL_ASSIGN:
+				op := map[token.Token]token.Token{token.SUB_ASSIGN: token.SUB, token.SHL_ASSIGN: token.SHL, token.SHR_ASSIGN: token.SHR, token.MUL_ASSIGN: token.MUL}[v.Tok]
+				val = ip.binary(fr, v, op, ip.expr(fr, v.Lhs[i], nil), ip.expr(fr, v.Rhs[i], nil), fr.info.TypeOf(v.Lhs[i]))
 			case token.ADD_ASSIGN, token.OR_ASSIGN, token.XOR_ASSIGN, token.AND_ASSIGN:
 				op := map[token.Token]token.Token{token.ADD_ASSIGN: token.ADD, token.OR_ASSIGN: token.OR, token.XOR_ASSIGN: token.XOR, token.AND_ASSIGN: token.AND}[v.Tok]
 				val = ip.binary(fr, v, op, ip.expr(fr, v.Lhs[i], nil), ip.expr(fr, v.Rhs[i], fr.info.TypeOf(v.Lhs[i])), fr.info.TypeOf(v.Lhs[i]))
@@ -453,6 +491,93 @@ func (ip *Interp) stmt(fr *frame, s ast.Stmt) {
 		ip.fail(fr, v, "expression statement")
 	case *ast.BlockStmt:
 		ip.block(fr, v.List)
+	case *ast.IncDecStmt:
+		x := ip.expr(fr, v.X, nil)
+		if x == nil || x.V == nil {
+			return
+		}
+		one := &Value{V: Const(1, len(x.V)), Sign: x.Sign}
+		op := token.ADD
+		if v.Tok == token.DEC {
+			op = token.SUB
+		}
+		if val := ip.binary(fr, v, op, x, one, fr.info.TypeOf(v.X)); val != nil {
+			ip.store(fr, v.X, val)
+		}
+	case *ast.IfStmt:
+		// only conditions that evaluate to a constant (a width parameter known at the call)
+		if v.Init != nil {
+			ip.stmt(fr, v.Init)
+		}
+		c := ip.expr(fr, v.Cond, nil)
+		if c == nil {
+			return
+		}
+		k, ok := constOf(c.V)
+		if !ok {
+			ip.fail(fr, v, "branch on a non-constant condition")
+			return
+		}
+		if k != 0 {
+			ip.block(fr, v.Body.List)
+		} else if v.Else != nil {
+			ip.stmt(fr, v.Else)
+		}
+	case *ast.ForStmt:
+		// loops whose trip count is a constant once the arguments are known are unrolled
+		if v.Init != nil {
+			ip.stmt(fr, v.Init)
+		}
+		for iter := 0; ; iter++ {
+			if fr.why != "" || fr.ret != nil {
+				return
+			}
+			if iter > 256 {
+				ip.fail(fr, v, "loop does not terminate within 256 unrolled iterations")
+				return
+			}
+			if v.Cond != nil {
+				c := ip.expr(fr, v.Cond, nil)
+				if c == nil {
+					return
+				}
+				k, ok := constOf(c.V)
+				if !ok {
+					ip.fail(fr, v, "loop condition is not a constant after unrolling (statement *ast.ForStmt outside the straight-line fragment)")
+					return
+				}
+				if k == 0 {
+					return
+				}
+			} else {
+				ip.fail(fr, v, "for without a condition")
+				return
+			}
+			ip.block(fr, v.Body.List)
+			if v.Post != nil && fr.why == "" && fr.ret == nil {
+				ip.stmt(fr, v.Post)
+			}
+		}
+	case *ast.RangeStmt:
+		// for i := range <constant n> / for i := range <byte slice of known length>
+		n := -1
+		if tv, ok := fr.info.Types[v.X]; ok && tv.Value != nil {
+			if k, ok := constant.Int64Val(constant.ToInt(tv.Value)); ok {
+				n = int(k)
+			}
+		} else if isByteSlice(fr.info.TypeOf(v.X)) && v.Value == nil {
+			if bv := ip.expr(fr, v.X, nil); bv != nil && bv.B != nil && bv.B.Len >= 0 {
+				n = bv.B.Len
+			}
+		}
+		if n < 0 || n > 256 || v.Key == nil {
+			ip.fail(fr, s, "statement %T outside the straight-line fragment", s)
+			return
+		}
+		for i := 0; i < n && fr.why == "" && fr.ret == nil; i++ {
+			ip.store(fr, v.Key, &Value{V: Const(uint64(i), 64), Sign: true})
+			ip.block(fr, v.Body.List)
+		}
 	default:
 		ip.fail(fr, s, "statement %T outside the straight-line fragment", s)
 	}
@@ -534,7 +659,7 @@ func (ip *Interp) store(fr *frame, lhs ast.Expr, val *Value) {
 			ip.fail(fr, lhs, "storing a non-integer into a byte")
 			return
 		}
-		b.Cells[off] = Convert(val.V, val.Sign, 8)
+		b.Set(off, Convert(val.V, val.Sign, 8))
 	default:
 		ip.fail(fr, lhs, "assignment target %T", lhs)
 	}
@@ -630,6 +755,31 @@ func (ip *Interp) expr(fr *frame, e ast.Expr, want types.Type) *Value {
 				return &Value{V: Input(key, w), Sign: sg}
 			}
 		}
+	case *ast.SliceExpr:
+		if isByteSlice(fr.info.TypeOf(v.X)) || isByteArray(fr.info.TypeOf(v.X)) {
+			bv := ip.expr(fr, v.X, nil)
+			if bv == nil || bv.B == nil {
+				return nil
+			}
+			lo := 0
+			if v.Low != nil {
+				o, ok := ip.offset(fr, v.Low)
+				if !ok {
+					ip.fail(fr, e, "slice bound is not base+constant")
+					return nil
+				}
+				lo = o
+			}
+			ln := -1
+			if v.High != nil {
+				if hi, ok := ip.offset(fr, v.High); ok {
+					ln = hi - lo
+				}
+			} else if bv.B.Len >= 0 {
+				ln = bv.B.Len - lo
+			}
+			return &Value{B: &Bytes{Name: bv.B.Name, Cells: bv.B.Cells, Len: ln, Input: bv.B.Input, Shift: bv.B.Shift + lo}}
+		}
 	case *ast.BinaryExpr:
 		l := ip.expr(fr, v.X, nil)
 		var r *Value
@@ -686,6 +836,11 @@ func (ip *Interp) binary(fr *frame, n ast.Node, op token.Token, l, r *Value, t t
 	var out Vec
 	switch op {
 	case token.ADD:
+		if a, ok1 := constOf(lv); ok1 {
+			if b, ok2 := constOf(rv); ok2 {
+				return &Value{V: Const(a+b, w), Sign: sg}
+			}
+		}
 		out = Add(lv, rv)
 	case token.OR:
 		out = Or(lv, rv)
@@ -695,6 +850,99 @@ func (ip *Interp) binary(fr *frame, n ast.Node, op token.Token, l, r *Value, t t
 		out = Xor(lv, rv)
 	case token.AND_NOT:
 		out = And(lv, Not(rv))
+	case token.SUB:
+		a, ok1 := constOf(lv)
+		b, ok2 := constOf(rv)
+		if !ok1 || !ok2 {
+			ip.fail(fr, n, "operator - on non-constants")
+			return nil
+		}
+		return &Value{V: Const(a-b, w), Sign: sg}
+	case token.EQL, token.NEQ, token.LSS, token.LEQ, token.GTR, token.GEQ, token.MUL, token.QUO, token.REM, token.LAND, token.LOR:
+		// decided on constants only (loop counters, widths known at the call)
+		cw := len(l.V)
+		if len(r.V) > cw {
+			cw = len(r.V)
+		}
+		a, ok1 := constOf(Convert(l.V, l.Sign, 64))
+		b, ok2 := constOf(Convert(r.V, r.Sign, 64))
+		if !ok1 || !ok2 {
+			if op == token.MUL {
+				// multiplication by a constant power of two is a shift
+				for _, pr := range [][2]*Value{{l, r}, {r, l}} {
+					if k, ok := constOf(pr[1].V); ok && k != 0 && k&(k-1) == 0 {
+						sh := 0
+						for k > 1 {
+							k >>= 1
+							sh++
+						}
+						return &Value{V: Shl(Convert(pr[0].V, pr[0].Sign, w), sh), Sign: sg}
+					}
+				}
+			}
+			ip.fail(fr, n, "operator %s on non-constants", op)
+			return nil
+		}
+		signed := l.Sign || r.Sign
+		cmp := func() int {
+			if signed {
+				switch {
+				case int64(a) < int64(b):
+					return -1
+				case int64(a) > int64(b):
+					return 1
+				}
+				return 0
+			}
+			switch {
+			case a < b:
+				return -1
+			case a > b:
+				return 1
+			}
+			return 0
+		}
+		bv := func(x bool) *Value {
+			if x {
+				return &Value{V: Const(1, 1)}
+			}
+			return &Value{V: Const(0, 1)}
+		}
+		switch op {
+		case token.EQL:
+			return bv(cmp() == 0)
+		case token.NEQ:
+			return bv(cmp() != 0)
+		case token.LSS:
+			return bv(cmp() < 0)
+		case token.LEQ:
+			return bv(cmp() <= 0)
+		case token.GTR:
+			return bv(cmp() > 0)
+		case token.GEQ:
+			return bv(cmp() >= 0)
+		case token.LAND:
+			return bv(a != 0 && b != 0)
+		case token.LOR:
+			return bv(a != 0 || b != 0)
+		case token.MUL:
+			return &Value{V: Const(a*b, w), Sign: sg}
+		case token.QUO, token.REM:
+			if b == 0 {
+				ip.fail(fr, n, "division by zero")
+				return nil
+			}
+			if signed {
+				if op == token.QUO {
+					return &Value{V: Const(uint64(int64(a)/int64(b)), w), Sign: sg}
+				}
+				return &Value{V: Const(uint64(int64(a)%int64(b)), w), Sign: sg}
+			}
+			if op == token.QUO {
+				return &Value{V: Const(a/b, w), Sign: sg}
+			}
+			return &Value{V: Const(a%b, w), Sign: sg}
+		}
 	default:
 		ip.fail(fr, n, "operator %s", op)
 		return nil
@@ -732,7 +980,19 @@ func (ip *Interp) call(fr *frame, call *ast.CallExpr, want types.Type) *Value {
 		ip.fail(fr, call, "call of a function value")
 		return nil
 	}
+	if b, isB := fr.info.Uses[id].(*types.Builtin); isB && b.Name() == "make" && len(call.Args) >= 2 && isByteSlice(fr.info.TypeOf(call)) {
+		if n, ok := ip.offset(fr, call.Args[1]); ok {
+			return &Value{B: &Bytes{Name: "make", Cells: map[int]Vec{}, Len: n}}
+		}
+		ip.fail(fr, call, "make with a non-constant length")
+		return nil
+	}
 	if b, isB := fr.info.Uses[id].(*types.Builtin); isB && b.Name() == "len" && len(call.Args) == 1 {
+		if isByteSlice(fr.info.TypeOf(call.Args[0])) || isByteArray(fr.info.TypeOf(call.Args[0])) {
+			if bv := ip.expr(fr, call.Args[0], nil); bv != nil && bv.B != nil && bv.B.Len >= 0 {
+				return &Value{V: Const(uint64(bv.B.Len), 64), Sign: true}
+			}
+		}
 		// the length of an input slice is a fresh 64-bit input named after the slice
 		return &Value{V: Input("len("+types.ExprString(call.Args[0])+")", 64), Sign: true}
 	}
@@ -751,8 +1011,53 @@ func (ip *Interp) call(fr *frame, call *ast.CallExpr, want types.Type) *Value {
 		return &Value{V: Convert(x.V, false, w), Sign: sg}
 	}
 	if fn.Pkg() != nil && fn.Pkg().Path() == "encoding/binary" {
-		ip.fail(fr, call, "encoding/binary summaries not needed on this tree; unsupported")
-		return nil
+		// binary.BigEndian / binary.LittleEndian: PutUintN(b, v), UintN(b), AppendUintN is not modelled
+		sel, _ := ast.Unparen(call.Fun).(*ast.SelectorExpr)
+		order := ""
+		if sel != nil {
+			order = types.ExprString(sel.X)
+			if t := fr.info.TypeOf(sel.X); t != nil {
+				order = t.String()
+			}
+		}
+		little := strings.Contains(strings.ToLower(order), "little")
+		big := strings.Contains(strings.ToLower(order), "big")
+		width := map[string]int{"PutUint16": 2, "PutUint32": 4, "PutUint64": 8, "Uint16": 2, "Uint32": 4, "Uint64": 8}[fn.Name()]
+		if width == 0 || little == big {
+			ip.fail(fr, call, "encoding/binary.%s is not modelled", fn.Name())
+			return nil
+		}
+		bv := ip.expr(fr, call.Args[0], nil)
+		if bv == nil || bv.B == nil {
+			if bv != nil {
+				ip.fail(fr, call, "encoding/binary on something other than a byte slice")
+			}
+			return nil
+		}
+		if strings.HasPrefix(fn.Name(), "Put") {
+			x := ip.expr(fr, call.Args[1], nil)
+			if x == nil || x.V == nil {
+				return nil
+			}
+			xv := Convert(x.V, false, 8*width)
+			for i := 0; i < width; i++ {
+				sh := 8 * i
+				if big {
+					sh = 8 * (width - 1 - i)
+				}
+				bv.B.Set(i, Convert(Shr(xv, sh, false), false, 8))
+			}
+			return &Value{V: Zero(1)}
+		}
+		out := Zero(8 * width)
+		for i := 0; i < width; i++ {
+			sh := 8 * i
+			if big {
+				sh = 8 * (width - 1 - i)
+			}
+			out = Or(out, Shl(Convert(bv.B.Get(i), false, 8*width), sh))
+		}
+		return &Value{V: out}
 	}
 	cfi := ip.P.FuncOf(fn)
 	if cfi == nil {
@@ -797,7 +1102,11 @@ func isIntType(t types.Type) bool {
 // SortedCells lists the written offsets of a byte slice.
 func (b *Bytes) SortedCells() []int {
 	var ks []int
-	for k := range b.Cells {
+	for k0 := range b.Cells {
+		k := k0 - b.Shift
+		if k < 0 {
+			continue
+		}
 		ks = append(ks, k)
 	}
 	sort.Ints(ks)
